@@ -104,7 +104,7 @@ static int Record(const vh::Args& args) {
              {"compat", got.has_value() ? rsconv::CompatDeep(got.value(), type) : true},
              {"v", got.has_value() ? json::array({ rsconv::ValueToJson(got.value()) }) : json::array()} };
     }
-    out << ev.dump() << "\n"; ++rep.cases;
+    out << ev.dump() << std::endl; ++rep.cases;
   }
   rep.counters["events"] = n;
   rep.Write(args.get("out"));
@@ -112,7 +112,7 @@ static int Record(const vh::Args& args) {
 }
 
 int main(int argc, char** argv) {
-  { vh::Args args(argc, argv); if (args.has("record")) return Record(args); }
+  { vh::Args args(argc, argv); if (args.has("record")) return vh::RunRecorder(args.get("trace"), args.get("out"), [&]() { return Record(args); }); }
   vh::IsoOptions iso; iso.faultProperty = "C16"; iso.batch = 5000;
   return vh::Main(argc, argv, Handle, true, iso);
 }
